@@ -82,6 +82,12 @@ class _Dropper(ast.NodeTransformer):
                                               args=[ast.Name(id=self.first_arg, ctx=ast.Load())], keywords=[]), node)
         return node
 
+    def visit_SetComp(self, node):
+        self.generic_visit(node)
+        # {e for ...} builds a hash set directly; route it through the set contract (handles symbolic members)
+        gen = ast.GeneratorExp(elt=node.elt, generators=node.generators)
+        return ast.copy_location(ast.Call(func=ast.Name(id="set", ctx=ast.Load()), args=[ast.copy_location(gen, node)], keywords=[]), node)
+
     def visit_FunctionDef(self, node):
         if not hasattr(self, "_top"):
             self._top = node
